@@ -1066,7 +1066,11 @@ func (e *Exec) unop(fr *frame, st *State, x *ssa.UnOp) *smt.Term {
 		}
 		addr := e.val(fr, st, x.X)
 		e.safety(st, "nil", smt.Neq(addr, NilAddr), x.Pos())
-		return e.load(st, addr, x.Type())
+		v := e.load(st, addr, x.Type())
+		if g, ok := x.X.(*ssa.Global); ok && v.S == IfaceS && e.W.NonNilGlobal(g) {
+			e.fact(st, v, smt.Neq(ITyp(v), smt.Const(32, 0)))
+		}
+		return v
 	case token.NOT:
 		return smt.Not(e.val(fr, st, x.X))
 	case token.SUB:
